@@ -12,8 +12,8 @@
    That these stages are chained as the model says (skel clean, staging, swap)
    is the publish model of C03 and the history correspondence (real runs
    compared with a fresh real mirror): see DESIGN.md. *)
-From AM.Model Require Import Base Download Stage Converge.
-From AM.Lemmas Require Import DownloadLemmas StageLemmas StageRunLemmas ConvergeLemmas.
+From AM.Model Require Import Base Download Stage Converge RepoRun.
+From AM.Lemmas Require Import DownloadLemmas StageLemmas StageRunLemmas ConvergeLemmas RepoRunLemmas.
 Open Scope string_scope.
 Open Scope list_scope.
 
@@ -143,3 +143,35 @@ Example pool_converges_example :
   (map (sizes (snd (pool_run files u []))) ["pool/a.deb"; "pool/b.deb"; "pool/old.deb"]
    = [Some 7%N; Some 5%N; None]).
 Proof. vm_compute. repeat split; reflexivity. Qed.
+
+(* One repository's whole run as the composition of its stages (Model/RepoRun.v):
+   metadata stage into skel; the view that is staged and swapped in = every path
+   of every obtained variant with what skel holds there; the pool queue read off
+   that view (poolq: any function of it - a file's size or date changes whenever
+   its content does); pool stage + cleaning into the mirror.  For EVERY two
+   on-disk histories (skel_a, mirror_a) and (skel_b, mirror_b): if the upstream
+   answers the metadata queue with complete bodies and both runs succeed, they
+   publish the same dists view - the one the upstream announces - and leave the
+   same pool, path by path and size by size: exactly what the indices declare. *)
+Theorem mirror_is_function_of_upstream :
+  forall metaq poolq u (ann : dfile -> variant * N * Z) skel_a mirror_a skel_b mirror_b va pa vb pb,
+  disjoint_files metaq ->
+  (forall f, In f metaq -> good_meta f u (fst (fst (ann f))) (snd (fst (ann f))) (snd (ann f))) ->
+  (forall view, disjoint_files (poolq view) /\ forallb required_pool_file (poolq view) = true) ->
+  repo_run metaq poolq u skel_a mirror_a = Some (va, pa) ->
+  repo_run metaq poolq u skel_b mirror_b = Some (vb, pb) ->
+  va = vb /\ va = announced_view metaq ann /\
+  forall p, sizes pa p = sizes pb p /\ sizes pa p = declared (poolq va) p.
+Proof. exact repo_run_function_of_upstream_lemma. Qed.
+Print Assumptions mirror_is_function_of_upstream.
+
+Example mirror_is_function_of_upstream_example :
+  match repo_run [ex_idx] ex_poolq ex_u [] [], repo_run [ex_idx] ex_poolq ex_u ex_old_skel ex_old_mirror with
+  | Some (va, pa), Some (vb, pb) =>
+      va = vb /\ map (sizes pa) ["pool/a.deb"; "pool/old.deb"] = [Some 7%N; None] /\
+      map (sizes pb) ["pool/a.deb"; "pool/old.deb"] = [Some 7%N; None] /\
+      va = [("d/by-hash/SHA256/ab", Some {| fsize := 10; fmt := Date 1700000001 |});
+            ("d/Packages.xz", Some {| fsize := 10; fmt := Date 1700000001 |})]
+  | _, _ => False
+  end.
+Proof. exact repo_run_example. Qed.
